@@ -1022,7 +1022,10 @@ class Run:
         W = self.W
         from mirsym.intr_core import struct_eq
         if W.proc(self.pid) is None:
-            return  # the process has been removed from the cache (C17 looks at what remains)
+            # the process has ended and left the cache.  By default its rows are gone too (C17); with keep_processes they stay, and must show the states the tasks ended in
+            if self.cfg.keep:
+                self.q_c11_final()
+            return
         self.res.witnesses += 1
         live = W.tasks(self.proc)
         rows = {r["tid"]: r for r in self.store_rows("tasks", self.pid)}
@@ -1065,6 +1068,22 @@ class Run:
                     continue
                 if eq is False or I.check_sat(z3.Not(eq)):
                     self.viol("proc-row-stale:%s" % fn, "stored process %s differs from the live process: stored %s, live %s" % (fn, str(W.py(prow[0][fn]))[:100], str(W.py(a))[:100]))
+
+    def q_c11_final(self):
+        """keep_processes, after the terminal event: every task of the ended process has a row, and the row's state is the state the task ended in
+        (only the state is compared here: it is what the real engine's state-write trace lets the replay confirm once the process is out of the cache)."""
+        W = self.W
+        self.res.witnesses += 1
+        rows = {r["tid"]: r for r in self.store_rows("tasks", self.pid)}
+        for t in W.tasks(self.proc):
+            info = W.task_info(t)
+            row = rows.get(info["tid"])
+            if row is None:
+                self.viol("final-row-missing:%s" % info["kind"], "keep_processes: ended task %s (%s) has no row in the store" % (info["nid"], info["state"]))
+                continue
+            st = W.py(row["state"])
+            if str(st).lower() != info["state"].lower():
+                self.viol("final-row-stale:state:%s" % info["kind"], "keep_processes: stored state of ended task %s is %s, the task ended %s" % (info["nid"], st, info["state"]))
 
     def stale_cause(self, info, fn):
         if fn == "data":
@@ -1360,8 +1379,37 @@ class ReplayRun(Run):
 
     def r_c11(self, v, obs):
         """Final quiescent state of the real engine: live dump (verif hook) against the rows of the memory store."""
+        full = obs.get("trace") or []
+        self._kinds = {}
+        for sn in list(obs.get("snapshots") or []) + [obs]:
+            for p in sn.get("procs") or []:
+                for t in p.get("tasks") or []:
+                    self._kinds[(p.get("pid"), t["tid"])] = t["kind"]
         for sn in list(obs.get("snapshots") or []) + [obs]:
             self.c11_view(sn)
+            if self.cfg.keep:
+                self.c11_final_view(sn, full[: sn.get("ntrace", len(full))] if sn is not obs else full)
+
+    def c11_final_view(self, obs, trace):
+        """keep_processes: a process that is no longer live (out of the cache) is compared through the state-write trace: last traced state of every task = state of its row"""
+        live = obs.get("live") or []
+        pids = set(t["pid"] for t in obs.get("stored_tasks", []))
+        live_pids = set(lv["pid"] for lv in live if lv)
+        for pid in pids - live_pids:
+            last = {}
+            for e in trace:
+                if e.get("pid") == pid:
+                    if e.get("how") == "new":
+                        last.setdefault(e["tid"], "none")
+                    else:
+                        last[e["tid"]] = e["new"]
+            rows = {t["tid"]: t for t in obs.get("stored_tasks", []) if t["pid"] == pid}
+            for tid, st in last.items():
+                r = rows.get(tid)
+                if r is None:
+                    self.found.append(("final-row-missing:%s" % self._kinds.get((pid, tid), "?"), tid))
+                elif str(r.get("state")).lower() != str(st).lower():
+                    self.found.append(("final-row-stale:state:%s" % self._kinds.get((pid, tid), "?"), "%s: stored %r, last written %r" % (tid, r.get("state"), st)))
 
     def c11_view(self, obs):
         for lv in obs.get("live") or []:
@@ -1483,7 +1531,7 @@ def confirm(v, name, cfg, prop, attempts=None):
     tried = []
     for th in flavors:
         for attempt in range(2):
-            sc = replay.scenario_of(model, sc_inputs, script, threads=th, config=({"keep_processes": bool(cfg.keep)} if prop == "C17" else None))
+            sc = replay.scenario_of(model, sc_inputs, script, threads=th, config=({"keep_processes": bool(cfg.keep)} if (prop == "C17" or cfg.keep) else None))
             out = replay.run(sc)
             if "error" in out:
                 last = out["error"]
